@@ -18,8 +18,8 @@
 //!                these resources), fd (declared before all definitions; also for entries)
 //!   entry    : name:stage:uses:calls:statics:x.y.z|-[:opts]   opts: i<list> (s_init globals touched), nt<k> (spelling of
 //!                the numthreads arguments: 1 = named constant, 2 = arithmetic, 3 = a second, different attribute first)
-//!   pipe     : name:dflt|-:entry indices[:opts]   opts: gs<k> (graphics state property set k), de (DefaultBindGroup
-//!                written as an expression)
+//!   pipe     : name:dflt|-:entry indices[:opts]   opts: gs<k> | gb<k> (graphics state property set k; gb = the set holds
+//!                blend state blocks only, which a compute pipeline accepts), de (DefaultBindGroup written as an expression)
 //!   The request is self-contained: the shader file is rendered from it (no seed), so shrinking and the witness search
 //!   can edit requests.
 use crate::progen;
@@ -318,7 +318,8 @@ impl Case {
                 let base = format!("{}:{}:{}", p.name, opt_u32(p.dflt), join_idx(&p.stages));
                 let mut o = Vec::new();
                 if p.gstate != 0 {
-                    o.push(format!("gs{}", p.gstate));
+                    // gs: the set holds a property only a graphics pipeline may carry; gb: blend state blocks only
+                    o.push(format!("{}{}", if super::state::graphics_props_strict(p.gstate) { "gs" } else { "gb" }, p.gstate));
                 }
                 if p.dexpr {
                     o.push("de".to_string());
@@ -505,7 +506,12 @@ impl Case {
             for o in opts(&p, 3)? {
                 match o.as_str() {
                     "de" => pp.dexpr = true,
-                    s if s.starts_with("gs") => pp.gstate = s[2..].parse().ok()?,
+                    s if s.starts_with("gs") || s.starts_with("gb") => {
+                        pp.gstate = s[2..].parse().ok()?;
+                        if pp.gstate == 0 || super::state::graphics_props_strict(pp.gstate) != s.starts_with("gs") {
+                            return None;
+                        }
+                    }
                     _ => return None,
                 }
             }
